@@ -159,6 +159,7 @@ func flStyles(name string) []string {
 var flNames = []string{
 	"'x`y' -> b",
 	"'${z}'.k",
+	"'${z}' -> b",
 	"\"q\\\\r\" -> \"l\\nf\"",
 	"\"é 漢\": {\"→\"}",
 	"c.'a.b' -> a",
@@ -206,7 +207,7 @@ func FLCore() []string {
 		[]string{"a.icon: " + icon, "a.label.near: outside-top-left", "a.label.near: outside-right-bottom", "a.label.near: border-bottom-right", "c.label.near: bottom-right",
 			"c.label.near: outside-left-center", "c: {icon: " + icon + "; icon.near: top-left}", "a: {icon: " + icon + "; icon.near: outside-left-center}"},
 		[]string{"a.style.3d: true", "a.style.multiple: true", "a.style.stroke-width: 15", "a.width: 300", "a.height: 10", "c.style.3d: true", "c.width: 300", "a.link: https://example.com"},
-		[]string{"'x`y' -> b", "\"q\\\\r\" -> \"l\\nf\""},
+		[]string{"\"q\\\\r\" -> \"l\\nf\""},
 		[]string{"layers: {l1: {a -> x.y}}"},
 	)
 }
